@@ -64,6 +64,54 @@ def gen_global_program(rng):
     return {"version": version, "dims": dims, "vars": vars_, "ops": ops}
 
 
+def gen_stride_program(rng):
+    """stride-stress program: larger dimensions, almost every put strided with >= 3 rows selected in the slow
+    dimensions (what the flattening code of the aggregation / nonblocking paths has to get right)"""
+    version = rng.choice([1, 2, 5])
+    dims = []
+    if rng.random() < 0.5:
+        dims.append((b"rec", 0))
+    for k in range(2):
+        dims.append((b"d%d" % k, rng.randint(7, 12)))
+    fixed = [i for i, d in enumerate(dims) if d[1] != 0]
+    vars_ = []
+    for k in range(rng.randint(2, 3)):
+        isrec = dims[0][1] == 0 and rng.random() < 0.5
+        ds = ([0] if isrec else []) + (fixed if rng.random() < 0.7 else fixed[::-1])
+        vars_.append((b"v%d" % k, rng.choice([t for t in types_for(version) if t != 2]), ds))
+    ops = []
+    nrecs = {}
+    for _ in range(rng.randint(5, 8)):
+        vid = rng.randrange(len(vars_))
+        name, xt, ds = vars_[vid]
+        shape = [dims[d][1] for d in ds]
+        isrec = dims[ds[0]][1] == 0
+        if isrec:
+            shape[0] = rng.choice([5, 7, 9])
+        st, ct, sd = [], [], []
+        for L in shape:
+            s = rng.randint(0, 2)
+            d = rng.choice([2, 2, 3]) if rng.random() < 0.8 else 1
+            mx = (L - 1 - s) // d + 1
+            c = mx if rng.random() < 0.6 else rng.randint(min(3, mx), mx)
+            st.append(s); sd.append(d); ct.append(c)
+        mt = rng.choice([XT2MEM[xt], "double", "int"])
+        lo, hi = safe_range(mt, xt)
+        lo, hi = max(lo, -30000), min(hi, 30000)
+        vals = [rng.randint(lo, hi) for _ in range(int(np.prod(ct)))]
+        ops.append(("put", vid, st, ct, mt, vals, rng.choice(["vars", "varm"]) if any(x != 1 for x in sd) else "vara", rng.random() < 0.4, sd))
+        if isrec:
+            nrecs["n"] = max(nrecs.get("n", 0), st[0] + (ct[0] - 1) * sd[0] + 1)
+    for vid, (name, xt, ds) in enumerate(vars_):
+        shape = [dims[d][1] for d in ds]
+        if dims[ds[0]][1] == 0:
+            if not nrecs.get("n"):
+                continue
+            shape[0] = nrecs["n"]
+        ops.append(("get", vid, [0] * len(shape), shape, XT2MEM[xt], None, "vara", False, None))
+    return {"version": version, "dims": dims, "vars": vars_, "ops": ops}
+
+
 CONFIG_SPACE = {
     "nc_header_align_size": [1, 4, 512, 1000, 4096],
     "nc_record_align_size": [1, 4, 512, 1000],
@@ -255,6 +303,26 @@ class C10(Check):
             prog = gen_global_program(rng)
             cfgs = [{"nprocs": 1, "hints": {}, "safe": False, "envhints": False, "nonblocking": False}]
             cfgs += [gen_config(rng, 4 if tier == "quick" else 8) for _ in range(k - 1)]
+            for ci, cfg in enumerate(cfgs):
+                name = "c10_%04d_%02d" % (pi, ci)
+                self.groups.setdefault(pi, []).append(name)
+                yield render(prog, cfg, name, seed=pi * 100 + ci)
+        # stride-stress programs, appended (the programs above keep their random stream): baseline + configurations that all
+        # use intra-node aggregation or nonblocking execution on 2-4(8) ranks
+        import random
+        srng = random.Random(rng.getrandbits(32))
+        for pi in range(nprog, nprog + (10 if tier == "quick" else 120)):
+            prog = gen_stride_program(srng)
+            cfgs = [{"nprocs": 1, "hints": {}, "safe": False, "envhints": False, "nonblocking": False}]
+            for j in range(3 if tier == "quick" else 5):
+                cfg = gen_config(srng, 4 if tier == "quick" else 8)
+                if cfg["nprocs"] == 1:
+                    cfg["nprocs"] = srng.choice([2, 3, 4])
+                if j != 1:
+                    cfg["hints"]["nc_num_aggrs_per_node"] = srng.randint(1, cfg["nprocs"] - 1)
+                else:
+                    cfg["nonblocking"] = True
+                cfgs.append(cfg)
             for ci, cfg in enumerate(cfgs):
                 name = "c10_%04d_%02d" % (pi, ci)
                 self.groups.setdefault(pi, []).append(name)
